@@ -199,14 +199,14 @@ def run(ctx):
     for k in range(ctx.budget(60, 1500)):
         items = []
         for _ in range(rng.choice([2, 3, 5, 8])):
-            r = rng.random()
-            if r < 0.12 and k % 6 == 0:
-                t = rng.choice([too_long_atom, ("t", [("i", 1), too_long_atom]), too_many_ids])
-                items.append("W-1 " + etf.show(t))
-            else:
-                t = termgen.gen_term(rng, depth=rng.choice([0, 1, 2]))
-                limit = -1 if r < 0.7 else rng.choice([0, 1, 2, 3, 5, 8, 20, 100])
-                items.append("W%d %s" % (limit, etf.show(t)))
+            t = termgen.gen_term(rng, depth=rng.choice([0, 1, 2]))
+            limit = -1 if rng.random() < 0.7 else rng.choice([0, 1, 2, 3, 5, 8, 20, 100])
+            items.append("W%d %s" % (limit, etf.show(t)))
+        if rng.random() < 0.6:
+            # a term the format cannot express, alone or after something that encodes, followed by ordinary calls
+            t = rng.choice([too_long_atom, ("t", [("a", b"ok"), too_long_atom]), ("l", [("i", 1), ("t", [too_long_atom])]), too_many_ids,
+                            ("m", [(("a", b"k"), too_many_ids)])])
+            items.insert(rng.randrange(len(items)), "W-1 " + etf.show(t))
         cases.append("encw " + " | ".join(items))
 
     def nontrivial(c, impl):
